@@ -10,7 +10,6 @@ import (
 	"runtime/debug"
 	"strings"
 	"time"
-	"unsafe"
 
 	"rvharness/internal/callmix"
 	"rvharness/internal/core"
@@ -496,8 +495,6 @@ func c12PoolCheck(c *core.Ctx, cases []c12PoolCase) []core.Outcome {
 	}
 	return outs
 }
-
-var _ = unsafe.Pointer(nil)
 
 func init() {
 	core.Register("C12", func(c *core.Ctx) {
